@@ -189,37 +189,33 @@ func (c *Ctx) lockGraph() *lockGraph {
 			}
 		}
 	}
-	// transitive closure (memoised DFS, go statements excluded)
-	var visit func(f *Func, depth int, stack map[*Func]bool) map[string]bool
-	visit = func(f *Func, depth int, stack map[*Func]bool) map[string]bool {
-		if s, ok := lg.acq[f]; ok {
-			return s
-		}
-		if stack[f] || depth > 10 {
-			return direct[f]
-		}
-		stack[f] = true
-		res := map[string]bool{}
+	// transitive closure by fixpoint iteration (go statements excluded); deterministic and complete
+	// irrespective of call-graph cycles.
+	succs := map[*Func][]*Func{}
+	for _, f := range le.all {
+		lg.acq[f] = map[string]bool{}
 		for k := range direct[f] {
-			res[k] = true
+			lg.acq[f][k] = true
 		}
 		for _, call := range f.AllCalls(f.Body, false) {
 			if _, isGo := f.ParentOf(call).(*ast.GoStmt); isGo {
 				continue
 			}
-			for _, t := range r.targets(f, call) {
-				for k := range visit(t, depth+1, stack) {
-					res[k] = true
+			succs[f] = append(succs[f], r.targets(f, call)...)
+		}
+	}
+	for changed := true; changed; {
+		changed = false
+		for _, f := range le.all {
+			for _, t := range succs[f] {
+				for k := range lg.acq[t] {
+					if !lg.acq[f][k] {
+						lg.acq[f][k] = true
+						changed = true
+					}
 				}
 			}
 		}
-		// literals passed as arguments and run synchronously are covered when the callee calls them
-		delete(stack, f)
-		lg.acq[f] = res
-		return res
-	}
-	for _, f := range le.all {
-		visit(f, 0, map[*Func]bool{})
 	}
 	add := func(h, l, w string) {
 		if h == l {
@@ -228,7 +224,7 @@ func (c *Ctx) lockGraph() *lockGraph {
 		if lg.edges[h] == nil {
 			lg.edges[h] = map[string]string{}
 		}
-		if _, ok := lg.edges[h][l]; !ok {
+		if old, ok := lg.edges[h][l]; !ok || w < old {
 			lg.edges[h][l] = w
 		}
 	}
